@@ -67,6 +67,7 @@ std::string esc(const XMLCh* s, size_t n) {
             o += "%u"; o += d[(c >> 12) & 15]; o += d[(c >> 8) & 15]; o += d[(c >> 4) & 15]; o += d[c & 15];
         } else put8(o, c);
     }
+    if (o == "~") o = "%7E";   // a lone tilde is the marker for a null pointer
     return o;
 }
 std::string esc(const XMLCh* s) { if (!s) return "~"; size_t n = 0; while (s[n]) n++; return esc(s, n); }
